@@ -9,6 +9,9 @@
 #ifndef BASEK
 #define BASEK 0         /* 0 decimal, 1 octal (leading 0), 2 hex (0x), 3 hex (0X) */
 #endif
+#ifndef PREFIX
+#define PREFIX ""       /* concrete leading digits (keeps decimal instances near a type limit cheap) */
+#endif
 #define NIN (ND + 3)
 #define VERIF_MAIN
 #include "verif.h"
@@ -20,19 +23,23 @@ typedef unsigned __int128 u128;
 void harness(void) {
   unsigned sign = IN8(0) % 3;          /* 0 none, 1 '-', 2 '+' */
   unsigned nd = IN8(1);                /* digits actually used */
-  ASSUME(nd >= 1 && nd <= ND);
+  ASSUME(nd <= ND && (nd >= 1 || sizeof(PREFIX) > 1));
   const unsigned base = BASEK == 0 ? 10 : BASEK == 1 ? 8 : 16;
-  char text[ND + 4]; size_t o = 0;
+  char text[ND + 4 + sizeof(PREFIX)]; size_t o = 0;
   if (sign == 1) text[o++] = '-'; else if (sign == 2) text[o++] = '+';
   if (BASEK >= 1) text[o++] = '0';
   if (BASEK == 2) text[o++] = 'x';
   if (BASEK == 3) text[o++] = 'X';
   u128 mag = 0;
+  for (unsigned i = 0; i + 1 < sizeof(PREFIX); i++) {
+    char c = PREFIX[i]; unsigned d = c <= '9' ? (unsigned)(c - '0') : (unsigned)((c | 32) - 'a' + 10);
+    text[o++] = c; mag = mag * base + d;
+  }
   for (unsigned i = 0; i < ND; i++) {
     if (i >= nd) break;
     unsigned d = IN8(2 + i);
     ASSUME(d < base);
-    if (BASEK == 0 && i == 0 && nd > 1) ASSUME(d != 0);     /* a leading 0 would make it octal */
+    if (BASEK == 0 && i == 0 && nd > 1 && sizeof(PREFIX) == 1) ASSUME(d != 0);     /* a leading 0 would make it octal */
     bool upper = BASEK == 3;
     text[o++] = (char)(d < 10 ? '0' + d : (upper ? 'A' : 'a') + (d - 10));
     mag = mag * base + d;
